@@ -936,7 +936,7 @@ func c16Run(rc *core.RunCtx) {
 	if m, err := strconv.ParseInt(os.Getenv("C16_DUMP_MOD"), 10, 64); err == nil && m > 0 {
 		c.mod = m
 	}
-	maxAttr, maxMixed, maxMro, maxSpecial := 4, 3, 5, 3
+	maxAttr, maxMixed, maxMro, maxSpecial := 4, 3, 5, 4
 	c.maxFull = 4
 	if !rc.Quick() {
 		maxAttr, maxMixed, maxMro, maxSpecial = 5, 4, 6, 4
@@ -1188,25 +1188,43 @@ func (c *c16) partDup() bool {
 	return true
 }
 
-// part "special": a special method (__len__) placed over the classes is found for an
-// instance along the MRO of its class, both implicitly (len(i)) and explicitly.
-const c16SpecialPrelude = `def mkl(v):
-    def f(self):
-        return v
-    return f
-def ln(o):
-    try:
-        vh.log(len(o))
-    except Exception as e:
-        vh.log(e)
-def le(o):
-    try:
-        vh.log(o.__len__())
-    except Exception as e:
-        vh.log(e)
-`
+// part "special": a special method placed over the classes is found for an instance along the
+// MRO of its class, both implicitly (len(i), i[0], i.missing, iteration, construction) and
+// explicitly (i.__len__()).
+type c16SpName struct {
+	name     string
+	sig      string                  // parameter list of the method
+	body     func(v string) string   // method body delivering the value v
+	implicit func(o string) string   // expression that makes the interpreter look the method up
+	explicit func(o string) string   // the same call spelled out ("" = not compared)
+	absent   string                  // expected log entry of the implicit form when no class defines it
+}
+
+var c16SpNames = []c16SpName{
+	{"__len__", "self", func(v string) string { return "return " + v }, func(o string) string { return "len(" + o + ")" },
+		func(o string) string { return o + ".__len__()" }, "<exc TypeError>"},
+	{"__getitem__", "self, i", func(v string) string { return "return " + v }, func(o string) string { return o + "[0]" },
+		func(o string) string { return o + ".__getitem__(0)" }, "<exc TypeError>"},
+	{"__getattr__", "self, name", func(v string) string { return "return " + v }, func(o string) string { return o + ".zz" },
+		func(o string) string { return o + ".__getattr__('zz')" }, c16AE},
+	{"__iter__", "self", func(v string) string { return "return iter([" + v + "])" }, func(o string) string { return "list(" + o + ")[0]" },
+		func(o string) string { return "list(" + o + ".__iter__())[0]" }, "<exc TypeError>"},
+	{"__init__", "self", func(v string) string { return "self.iv = " + v }, func(o string) string { return "type(" + o + ")().iv" },
+		nil, c16AE},
+}
+
+func c16SpPrelude(sp c16SpName) string {
+	exp := "None"
+	if sp.explicit != nil {
+		exp = sp.explicit("o")
+	}
+	return "def mkl(v):\n    def f(" + sp.sig + "):\n        " + sp.body("v") + "\n    return f\n" +
+		"def ln(o):\n    try:\n        vh.log(" + sp.implicit("o") + ")\n    except Exception as e:\n        vh.log(e)\n" +
+		"def le(o):\n    try:\n        vh.log(" + exp + ")\n    except Exception as e:\n        vh.log(e)\n"
+}
 
 type c16Sp struct {
+	sp    c16SpName
 	n     int
 	bases [][]int
 	mros  [][]int
@@ -1251,15 +1269,20 @@ func (s *c16Sp) lensAll(phase string) {
 		if w == "absent" {
 			exp, exp2 = "<exc TypeError>", c16AE
 		}
+		if w == "absent" {
+			exp = s.sp.absent
+		}
 		s.emit(c16Op{stmt: "ln(" + c16InstName(k) + ")\n", exp: exp, form: "len-inst", where: w, kind: "f", phase: phase})
-		s.emit(c16Op{stmt: "le(" + c16InstName(k) + ")\n", exp: exp2, form: "call-special-inst", where: w, kind: "f", phase: phase})
+		if s.sp.explicit != nil {
+			s.emit(c16Op{stmt: "le(" + c16InstName(k) + ")\n", exp: exp2, form: "call-special-inst", where: w, kind: "f", phase: phase})
+		}
 	}
 }
 
-func c16BuildSpecial(bases, mros [][]int, place []byte) *c16Sp {
+func c16BuildSpecial(sp c16SpName, bases, mros [][]int, place []byte) *c16Sp {
 	n := len(bases)
-	s := &c16Sp{n: n, bases: bases, mros: mros, place: place, val: make([]int, n)}
-	s.src.WriteString(c16SpecialPrelude)
+	s := &c16Sp{sp: sp, n: n, bases: bases, mros: mros, place: place, val: make([]int, n)}
+	s.src.WriteString(c16SpPrelude(sp))
 	for k := 0; k < n; k++ {
 		var b strings.Builder
 		b.WriteString("class " + c16ClassName(k))
@@ -1273,7 +1296,7 @@ func c16BuildSpecial(bases, mros [][]int, place []byte) *c16Sp {
 		b.WriteString(":\n")
 		if place[k] == 'f' {
 			s.val[k] = 10 + k
-			b.WriteString("    def __len__(self):\n        return " + itoa(10+k) + "\n")
+			b.WriteString("    def " + sp.name + "(" + sp.sig + "):\n        " + sp.body(itoa(10+k)) + "\n")
 		} else {
 			b.WriteString("    pass\n")
 		}
@@ -1289,15 +1312,15 @@ func c16BuildSpecial(bases, mros [][]int, place []byte) *c16Sp {
 			exp, w = c16AE, "absent"
 		}
 		s.val[k] = 0
-		s.emit(c16Op{stmt: c16Try("del " + c16ClassName(k) + ".__len__"), code: 'X', exp: exp, form: "del-class", where: w, kind: "f", phase: "C"})
+		s.emit(c16Op{stmt: c16Try("del " + c16ClassName(k) + "." + sp.name), code: 'X', exp: exp, form: "del-class", where: w, kind: "f", phase: "C"})
 		s.lensAll("C")
 		s.seq++
 		s.val[k] = 20 + s.seq
-		s.emit(c16Op{stmt: c16Try(c16ClassName(k) + ".__len__ = mkl(" + itoa(20+s.seq) + ")"), code: 'W', exp: "'ok'", form: "write-class", where: "-", kind: "f", phase: "C"})
+		s.emit(c16Op{stmt: c16Try(c16ClassName(k) + "." + sp.name + " = mkl(" + itoa(20+s.seq) + ")"), code: 'W', exp: "'ok'", form: "write-class", where: "-", kind: "f", phase: "C"})
 		s.lensAll("C")
 		if orig == 0 {
 			s.val[k] = 0
-			s.emit(c16Op{stmt: c16Try("del " + c16ClassName(k) + ".__len__"), code: 'X', exp: "'ok'", form: "del-class", where: "present", kind: "f", phase: "C"})
+			s.emit(c16Op{stmt: c16Try("del " + c16ClassName(k) + "." + sp.name), code: 'X', exp: "'ok'", form: "del-class", where: "present", kind: "f", phase: "C"})
 		}
 	}
 	return s
@@ -1307,8 +1330,33 @@ func (c *c16) partSpecial(maxN int) bool {
 	rc := c.rc
 	rc.Part = "special"
 	cont := true
-	for n := 1; n <= maxN && cont; n++ {
+	for si, sp := range c16SpNames {
+		sp := sp
+		top := maxN
+		if si > 0 && top > 3 && rc.Quick() {
+			top = 3 // quick: the other names on the hierarchies of <= 3 classes, plus the diamonds below
+		}
+		for n := 1; n <= top && cont; n++ {
+			cont = c.partSpecialN(sp, n, nil)
+		}
+		if si > 0 && rc.Quick() && cont {
+			// the 4-class hierarchies whose last class has two bases with a common ancestor
+			cont = c.partSpecialN(sp, 4, func(bases [][]int) bool {
+				return len(bases[3]) >= 2 && len(bases[1]) > 0 && len(bases[2]) > 0
+			})
+		}
+	}
+	return cont
+}
+
+func (c *c16) partSpecialN(sp c16SpName, n int, want func(bases [][]int) bool) bool {
+	rc := c.rc
+	cont := true
+	{
 		c16Hierarchies(n, func(bases, mros [][]int, lastOK bool) bool {
+			if want != nil && !want(bases) {
+				return true
+			}
 			if !lastOK {
 				return true
 			}
@@ -1327,7 +1375,7 @@ func (c *c16) partSpecial(maxN int) bool {
 						pl[i] = 'f'
 					}
 				}
-				c.specialCase(bases, mros, pl)
+				c.specialCase(sp, bases, mros, pl)
 			}
 			return true
 		})
@@ -1335,20 +1383,20 @@ func (c *c16) partSpecial(maxN int) bool {
 	return cont
 }
 
-func (c *c16) specialCase(bases, mros [][]int, pl []byte) {
+func (c *c16) specialCase(sp c16SpName, bases, mros [][]int, pl []byte) {
 	rc := c.rc
-	s := c16BuildSpecial(bases, mros, pl)
+	s := c16BuildSpecial(sp, bases, mros, pl)
 	hs := c16HierString(bases)
 	mk := func(op *c16Op) core.Fields {
-		return core.Fields{"part": "special", "n": itoa(s.n), "hier": hs, "place": string(pl), "form": op.form, "where": op.where, "kind": op.kind}
+		return core.Fields{"part": "special", "name": sp.name, "n": itoa(s.n), "hier": hs, "place": string(pl), "form": op.form, "where": op.where, "kind": op.kind}
 	}
 	src := s.src.String()
-	rc.Guard(mk(&s.ops[0]), func() string { return "hierarchy " + hs + " __len__ placement " + string(pl) + "\n" + src }, func() {
+	rc.Guard(mk(&s.ops[0]), func() string { return "hierarchy " + hs + " " + sp.name + " placement " + string(pl) + "\n" + src }, func() {
 		c.maybeDump(s.ops, src)
 		entries, _, err := c.run(src, false)
 		nt := ""
 		if s.inh {
-			nt = "special|" + hs + "|" + string(pl)
+			nt = "special|" + sp.name + "|" + hs + "|" + string(pl)
 		}
 		rc.Eval("special n="+itoa(s.n), nt)
 		rc.Count("operations_checked", int64(len(s.ops)))
@@ -1359,7 +1407,7 @@ func (c *c16) specialCase(bases, mros [][]int, pl []byte) {
 				return
 			}
 			seen[key] = true
-			rc.Deviate(core.Deviation{Fields: mk(op), Input: fmt.Sprintf("hierarchy %s __len__ placement %s, operation %d:\n%s%s", hs, string(pl), i, c16SpecialPrelude, op.obj), Expected: exp, Observed: got, Sig: sig})
+			rc.Deviate(core.Deviation{Fields: mk(op), Input: fmt.Sprintf("hierarchy %s %s placement %s, operation %d:\n%s%s", hs, sp.name, string(pl), i, c16SpPrelude(sp), op.obj), Expected: exp, Observed: got, Sig: sig})
 		}
 		for i := range s.ops {
 			op := &s.ops[i]
@@ -1395,7 +1443,7 @@ func init() {
 			"Each program runs a fixed tour, one log entry per operation: class creation (ok/TypeError), isinstance(I_i, C_j) for all i,j and isinstance(I_i, object), reads of x on every class and on one instance of every class (callables are called and return their arguments, so the bound object is observed); " +
 			"for every k: write data / write function / delete / delete-missing on I_k, delete, write of each of the 4 kinds, restore on C_k, class write while I_k shadows (n=5: data write only on I_k, only the placement's kind written on C_k, no shadowed class write); after every state change x is re-read on every class and every instance; finally the state is re-read with py.GetAttrString/py.Call from Go. " +
 			"part mro: n<=5 / n<=6 classes created with type(name, bases, dict) through the Go API, stored Mro and IsSubtype compared for every class / pair, TypeError for an inconsistent last class. part dup: repeated base -> TypeError. " +
-			"part special: __len__ as plain function on every subset of the classes of every hierarchy with n<=3 / n<=4: len(I_k) and I_k.__len__() for all k, with delete/write on each class and re-reads. " +
+			"part special: __len__ as plain function on every subset of the classes of every hierarchy with n<=4, and __getitem__, __getattr__, __iter__, __init__ on every hierarchy with n<=3 plus every 4-class hierarchy whose last class has two bases that have bases themselves (thorough: all n<=4): the implicit use (len(I_k), I_k[0], I_k.zz, list(I_k), type(I_k)()) and the explicit call for all k, with delete/write on each class and re-reads. " +
 			"Non-trivial: a program in which at least one read resolves to an inherited definition, or a rejected hierarchy; mro cases with multiple inheritance.",
 		Run: c16Run,
 		Assumptions: []string{
